@@ -15,7 +15,7 @@ TECHNIQUE = ('bounded exhaustive enumeration of inputs (all per-bin value/error 
              'degrees of freedom x shapes x numbers of datasets) of the real TestStudent against a scalar reference model, plus '
              'every instance of each metamorphic relation inside the enumerated set')
 RULE = ('per (alpha, ndf): every bin (v1, e1, v2, e2) over the value and error alphabets, evaluated once as a cell of one array '
-        'dataset and once as a scalar dataset; every assignment of the bin classes {pass, fail, undefined[, equal]} to the cells of the '
+        'dataset and once as a scalar dataset; every assignment of the bin classes {pass (t = 0), fail (|t| = 7e6), undefined[, near (t = -0.35, verdict from the reference)]} to the cells of the '
         'shapes (), (1,), (3,), (2,2), (1,2,1) for 1-3 compared datasets; relations: swap of the datasets, common rescaling by 2 and '
         '1e-3, monotonicity in |v1-v2| and in the errors over all pairs of enumerated bins; non-trivial = bins with a zero, NaN or '
         'infinite ingredient, and multi-cell / multi-dataset assignments that mix classes')
@@ -35,8 +35,10 @@ ERRS_Q = [0.0, 0.1, 1.0, float('nan'), float('inf')]
 ERRS_T = ERRS_Q + [1e-300]
 SHAPES = [(), (1,), (3,), (2, 2), (1, 2, 1)]
 #          v1   e1   v2    e2
-CLASSES = {'pass': (1.0, 0.1, 1.05, 0.1), 'fail': (1.0, 0.1, 2.0, 0.1), 'undef': (1.0, 0.1, float('nan'), 0.1),
-           'equal': (1.0, 0.1, 1.0, 0.1)}
+# classes whose verdict does not depend on the level / degrees of freedom of the alphabet: t = 0, |t| = 7e6, undefined;
+# 'near' (t = -0.35) is level dependent: its verdict is taken from the reference
+CLASSES = {'pass': (1.0, 0.1, 1.0, 0.1), 'fail': (1.0, 0.1, 1.0e6, 0.1), 'undef': (1.0, 0.1, float('nan'), 0.1),
+           'near': (1.0, 0.1, 1.05, 0.1)}
 
 
 def ref_t(v1, e1, v2, e2):
@@ -178,9 +180,11 @@ def job(args):
                         {'path': 'scalar', 'bin(v1,e1,v2,e2)': b, 'alpha': alpha, 'ndf': ndf})
     # ---- aggregation over cells and datasets
     if do_shapes:
-        names = ['pass', 'fail', 'undef'] + (['equal'] if tier == 'thorough' else [])
+        names = ['pass', 'fail', 'undef'] + (['near'] if tier == 'thorough' else [])
         cref = {n: verdict_ref(ref_p(ref_t(*CLASSES[n]), ndf), alpha) for n in names}
         assert cref['pass'] is True and cref['fail'] is False and cref['undef'] is False, cref
+        if cref.get('near') is None:
+            names = [n for n in names if n != 'near']        # on the decision boundary for this level: not used
         for shape in SHAPES:
             ncell = int(np.prod(shape)) if shape else 1
             for nds in (1, 2, 3):
